@@ -11,10 +11,13 @@
 #define SENV_DONE 2
 struct senv_frame { int dirty; int is_savepoint; };
 struct sqlite3 { int level; struct senv_frame frames[SENV_MAXLEVEL]; int committed; int mods; int steps; int other_exec; int nstmt; int finalized; int misuse; int overflow; int closed; int last_changes; struct sqlite3_stmt *last_row_stmt; struct sqlite3_stmt *last_mod_stmt; };
-struct sqlite3_stmt { struct sqlite3 *db; const char *sql; int modifying; int state; int rows; int last_rc; int last_rc_hard;
+struct senv_binding { int type; long long i; const void *p; int len; double d; };   /* type: 0 unset/null, 1 int, 2 text16, 3 text, 4 double, 5 blob */
+struct sqlite3_stmt { int cm; struct senv_binding pv[SENV_MAXBIND]; struct sqlite3 *db; const char *sql; int modifying; int state; int rows; int last_rc; int last_rc_hard;
                       const void *bound[SENV_MAXBIND]; void (*dtor[SENV_MAXBIND])(void *); int bound_set[SENV_MAXBIND]; sqlite3_int64 ival[SENV_MAXBIND]; };
 extern int senv_benign, senv_fail_mode, senv_fail_at, senv_calls;
 extern int (*senv_step_hook)(sqlite3_stmt *s);
 extern int (*senv_int_hook)(sqlite3_stmt *s, int col, int *out);
 extern const void *(*senv_text16_hook)(sqlite3_stmt *s, int col, int *bytes);
+/* column store (compiled with -DSENV_COLSTORE): the last row written by a mapped insert/update, by column id */
+extern struct senv_binding senv_row[32]; extern int senv_row_valid;
 #endif
